@@ -85,7 +85,7 @@ QUANTILES = (0.02, 0.15, 0.35, 0.5, 0.65, 0.85, 0.98)
 class Schedule(object):
     """The shared choice log of one execution (shared by an EnumRNG and everything it spawns)."""
 
-    __slots__ = ("prefix", "trace", "log_prob", "prob", "policy", "draws")
+    __slots__ = ("prefix", "trace", "log_prob", "prob", "policy", "draws", "picks")
 
     def __init__(self, prefix=(), policy="first"):
         self.prefix = list(prefix)
@@ -93,6 +93,7 @@ class Schedule(object):
         self.prob = 1.0
         self.policy = policy
         self.draws = []  # (api, args) of every law-level draw, for recording checks (C13)
+        self.picks = []  # value returned by every single-element choice(), in order
 
 
 def _order(live, probs, policy):
@@ -208,6 +209,7 @@ class EnumRNG(np.random.Generator):
         n = len(arr)
         if size is None:
             idx = self._choose("choice1", [1.0 / n] * n)
+            self._s.picks.append(arr[idx])
             return arr[idx]
         if replace:
             raise UnmodelledRandomness("choice(replace=True, size=...)")
